@@ -89,6 +89,7 @@ type c17CacheXSpec struct {
 	RegA       c17BackendRec `json:"rega"`
 	RegB       c17BackendRec `json:"regb"`
 	AnswerBody string        `json:"answer_body"`
+	Revoke     string        `json:"revoke,omitempty"` // before B's request, through the admin API: "delete" RegA | "reassign" RegA to another end user
 }
 
 // e3Fault fails the Nth call of service.method made by one handler invocation.
@@ -427,6 +428,15 @@ func c17GenCases(rng *rand.Rand, wd *c17World, keepFrac float64, history bool) {
 			sp.A = e3Call{Module: "default", Method: "GET", Path: url, AEUser: ua, ReqID: fmt.Sprintf("cl-%s-cx%d-a", w, v), NoUID: v == 0}
 			sp.B = e3Call{Module: "default", Method: "GET", Path: url, AEUser: ub, ReqID: fmt.Sprintf("cl-%s-cx%d-b", w, v), NoUID: v == 0}
 			wd.add(&c17Case{CacheX: sp, Meta: c17Meta{Kind: "user-cachex", Endpoint: "client", Ident: []string{"users-without-user-id", "users-with-user-id"}[v], Email: ub}})
+			// the same user again after his backend's registration was removed (deleted / given to another end user):
+			// no backend is registered for him and that path any more, so 404 - never the page cached earlier
+			rv := *sp
+			rv.Revoke = []string{"delete", "reassign"}[v]
+			rv.RegA.ID, rv.RegB.ID = rv.RegA.ID+"r", rv.RegB.ID+"r"
+			rv.RegB.PathPrefixes = []string{fmt.Sprintf("/elsewhere%d/", v)}
+			rv.B = rv.A
+			rv.B.ReqID = fmt.Sprintf("cl-%s-cx%d-again", w, v)
+			wd.add(&c17Case{CacheX: &rv, Meta: c17Meta{Kind: "user-cachex", Endpoint: "client", Ident: "same-user-after-registration-" + rv.Revoke, Email: ua}})
 		}
 	}
 
@@ -614,6 +624,9 @@ func c17GenCases(rng *rand.Rand, wd *c17World, keepFrac float64, history bool) {
 		newAgent := c17Ident{"new-agent", &e3OAuth{Email: fmt.Sprintf("successor%d-%s@sa.example.com", ti, w)}}
 		oldUser := pend.User
 		newRec := c17BackendRec{ID: bt.Rec.ID, BackendUser: newAgent.oauth.Email, EndUser: fmt.Sprintf("moved%d-%s@u.example.com", ti, w), PathPrefixes: bt.Rec.PathPrefixes}
+		if wn, _ := strconv.Atoi(strings.TrimPrefix(w, "w")); (wn+ti)%2 == 0 {
+			newRec.EndUser = bt.Rec.EndUser // only the agent account changes: same end user, same paths
+		}
 		step := 0
 		hist := func(c *c17Case) *c17Case {
 			c.Meta.History = true
@@ -1325,6 +1338,22 @@ func (wd *c17World) judge(r *core.Run, c *c17Case, res *c17Result, st *c17State)
 		}
 		if res.APosted > 0 && (res.AStatus != 200 || res.ABody != sp.AnswerBody) {
 			viol("end-user-did-not-receive-own-backends-response", fmt.Sprintf("backend %q's agent answered; its end user got %d %q", sp.RegA.ID, res.AStatus, core.Trunc(res.ABody, 80)))
+		}
+		if sp.Revoke != "" {
+			// (judged only where no shared backend of the world matches the path: with one, a backend is still
+			// registered for the user and the documented GET cache may answer)
+			stillServed := false
+			for _, ob := range wd.Bs {
+				for _, pf := range ob.Rec.PathPrefixes {
+					if ob.Rec.EndUser == "allUsers" && strings.HasPrefix(strings.SplitN(sp.B.Path, "?", 2)[0], pf) {
+						stillServed = true
+					}
+				}
+			}
+			if !stillServed && (strings.Contains(res.BBody, sp.AnswerBody) || res.BStatus/100 == 2) {
+				viol("end-user-served-after-registration-removed:"+sp.Revoke, fmt.Sprintf("end user %q: backend %q was %s through the admin API, no backend is registered for him and this path any more, yet the same GET got status %d %q (cached page: %v)", sp.A.AEUser, sp.RegA.ID, map[string]string{"delete": "deleted", "reassign": "registered for another end user"}[sp.Revoke], res.BStatus, core.Trunc(res.BBody, 80), strings.Contains(res.BBody, sp.AnswerBody)))
+			}
+			return
 		}
 		if strings.Contains(res.BBody, sp.AnswerBody) || res.BStatus/100 == 2 {
 			viol("end-user-received-another-users-cached-response", fmt.Sprintf("end user %q (entitled to backend %q only, which did not answer) got status %d %q for the URL that %q had fetched from backend %q before", sp.B.AEUser, sp.RegB.ID, res.BStatus, core.Trunc(res.BBody, 80), sp.A.AEUser, sp.RegA.ID))
